@@ -243,6 +243,7 @@ class Trace:
             R.deadline = deadline
             low = Lowerer(g, R, {}, decisions, self.decide)
             low.onodes = onodes
+            low.smt_ctx = lambda: self._smt_context(low)
             for s in self.inputs:
                 low.env.update(s.bind(low))
             if self.post_bind:
@@ -284,7 +285,22 @@ class Trace:
                         results.append(Result(self.id, "definedness: every divisor / radicand met on this path is in-domain", st,
                                               "SMT+SYNTACTIC", pstr, secs, detail, None, cnt))
         except EngineError as e:
-            results.append(Result(self.id, "paths", UNDECIDED, "ALG", "", time.time() - t0, f"engine: {e}"))
+            # the engine gave up (e.g. too many control paths): nothing is proved; a sampled input on which the real
+            # function violates an obligation still makes it a violation with a concrete witness
+            found = False
+            for ob in pending:
+                if ob.kind not in ("eq", "le", "lt", "ge", "gt"):
+                    continue
+                try:
+                    w = self._find_witness(None, onodes, fn, outs, ob, [], rng, n=600)
+                except Exception:
+                    w = None
+                if w is not None:
+                    found = True
+                    results.append(Result(self.id, ob.id, REFUTED, "EVAL", "", time.time() - t0,
+                                          f"engine gave up ({e}); a sampled input satisfying the sorts violates the obligation on the real function", w, 0))
+            if not found:
+                results.append(Result(self.id, "paths", UNDECIDED, "ALG", "", time.time() - t0, f"engine: {e}"))
             return results
         for ob in pending:
             rows = per_ob[ob.id]
